@@ -51,3 +51,12 @@ Qed.
 
 Theorem split_lines_ok : forall bs, Forall line_ok (split_lines bs).
 Proof. intros bs. apply split_aux_lines_ok. constructor. Qed.
+
+(* ---------- str::lines(): split at LF, drop one trailing CR of each line, no final empty line ---------- *)
+Fixpoint lines_aux (cur : list N) (cs : list N) : list (list N) :=
+  match cs with
+  | [] => match cur with [] => [] | _ => [rev cur] end
+  | c :: r => if (c =? 10)%N then rev (match cur with 13%N :: cur' => cur' | _ => cur end) :: lines_aux [] r
+              else lines_aux (c :: cur) r
+  end.
+Definition str_lines (t : list N) : list (list N) := lines_aux [] t.
